@@ -157,10 +157,61 @@ func (r *runner) oneCase(e TypeEntry, cfgMask int, cfgErr bool) {
 		viol("start-failed", fmt.Sprintf("Start did not succeed after configuration (returned=%v err=%v)", ok, serr))
 		return
 	}
-	if _, err := rr.Plugin.Synchronize(ctx, &api.SynchronizeRequest{}); err != nil {
-		viol("synchronize-failed", err.Error())
+	if !e.WithCfg {
+		if _, err := rr.Plugin.Synchronize(ctx, &api.SynchronizeRequest{}); err != nil {
+			viol("synchronize-failed", err.Error())
+		}
+		rec.Take()
+	} else {
+		// the state arrives in 1-4 messages; the Synchronize handler runs once, with the concatenation
+		nmsg := 1 + r.g.IntN(4)
+		var wantP []*api.PodSandbox
+		var wantC []*api.Container
+		for m := 0; m < nmsg; m++ {
+			req := &api.SynchronizeRequest{More: m < nmsg-1}
+			for k, n := 0, r.g.IntN(4); k < n; k++ {
+				req.Pods = append(req.Pods, &api.PodSandbox{Id: fmt.Sprintf("%s-sp%d.%d", id, m, k), Labels: map[string]string{"m": fmt.Sprint(m)}})
+			}
+			for k, n := 0, r.g.IntN(5); k < n; k++ {
+				req.Containers = append(req.Containers, &api.Container{Id: fmt.Sprintf("%s-sc%d.%d", id, m, k), Env: []string{"M=" + fmt.Sprint(m)}})
+			}
+			wantP, wantC = append(wantP, req.Pods...), append(wantC, req.Containers...)
+			rsp, err := rr.Plugin.Synchronize(ctx, req)
+			if err != nil {
+				viol("synchronize-failed", fmt.Sprintf("message %d of %d: %v", m+1, nmsg, err))
+				break
+			}
+			calls := rec.Take()
+			if req.More {
+				if len(calls) != 0 || !rsp.GetMore() || len(rsp.GetUpdate()) != 0 {
+					viol("synchronize-split", fmt.Sprintf("message %d of %d announced more: handler calls=%d, reply more=%v updates=%d (want 0, true, 0)", m+1, nmsg, len(calls), rsp.GetMore(), len(rsp.GetUpdate())))
+				}
+				continue
+			}
+			if len(calls) != 1 || calls[0].Handler != "Synchronize" {
+				viol("dispatch/Synchronize", fmt.Sprintf("the last of %d synchronization messages must invoke the Synchronize handler exactly once; calls: %d", nmsg, len(calls)))
+				continue
+			}
+			same := len(calls[0].SyncPods) == len(wantP) && len(calls[0].SyncCtrs) == len(wantC)
+			for k := 0; same && k < len(wantP); k++ {
+				same = proto.Equal(calls[0].SyncPods[k], wantP[k])
+			}
+			for k := 0; same && k < len(wantC); k++ {
+				same = proto.Equal(calls[0].SyncCtrs[k], wantC[k])
+			}
+			if !same {
+				viol("arguments/Synchronize", fmt.Sprintf("the Synchronize handler received %d pods and %d containers, the %d messages carried %d and %d (or they differ in content or order)", len(calls[0].SyncPods), len(calls[0].SyncCtrs), nmsg, len(wantP), len(wantC)))
+			}
+			okUpd := len(rsp.GetUpdate()) == len(rec.Updates)
+			for k := 0; okUpd && k < len(rec.Updates); k++ {
+				okUpd = proto.Equal(rsp.GetUpdate()[k], rec.Updates[k])
+			}
+			if !okUpd || rsp.GetMore() {
+				viol("result/Synchronize", fmt.Sprintf("updates returned by the Synchronize handler reached the runtime changed: %v (more=%v)", rsp.GetUpdate(), rsp.GetMore()))
+			}
+			r.res.Count(fmt.Sprintf("synchronizations_in_%d_messages", nmsg), 1)
+		}
 	}
-	rec.Take()
 
 	// every event, subscribed or not, success and failure phase
 	for _, fail := range []bool{false, true} {
@@ -299,6 +350,9 @@ func Main(types []TypeEntry) {
 			r.oneCase(e, m, false)
 		}
 		r.oneCase(e, 0, true)
+		if e.Mask != 0 {
+			r.resyncCase(e)
+		}
 		if e.Mask != 0 && e.Mask&(e.Mask-1) != 0 { // at least two handlers: proper subsets exist
 			low := e.Mask & -e.Mask
 			rest := e.Mask &^ low
@@ -387,4 +441,123 @@ func (r *runner) reconfigCase(e TypeEntry, seqMasks []int) {
 		rr.Close()
 	}
 	r.res.Seen(fmt.Sprintf("reconfigure|0x%04x|%d", e.Mask, len(seqMasks)))
+}
+
+// resyncCase: the connection of ONE stub is lost after it accepted the first messages of a split
+// synchronization; the stub is started again on a fresh connection and synchronized with a different
+// state: the Synchronize handler must be invoked once, with exactly what the second session's
+// messages carried.
+func (r *runner) resyncCase(e TypeEntry) {
+	r.seq++
+	id := fmt.Sprintf("rs%04x.%d", e.Mask, r.seq)
+	accepted := 1 + r.g.IntN(2)
+	what := map[string]any{"implemented": fmt.Sprintf("0x%04x", e.Mask), "scenario": "connection lost during a split synchronization, same stub started again", "messages_accepted_before_loss": accepted}
+	viol := func(sig, msg string) { r.res.Violate("C15/"+sig, msg, what) }
+	r.res.Eval()
+	rec := &Rec{}
+	u := &api.ContainerUpdate{ContainerId: id + "-other"}
+	u.SetLinuxCPUShares(uint64(1000 + r.seq))
+	rec.Updates = []*api.ContainerUpdate{u}
+	plugin := e.New(rec)
+	dialed := make(chan *rig.RawRuntime, 8)
+	dial := func(string) (net.Conn, error) {
+		a, b := net.Pipe()
+		rr, err := rig.NewRawRuntime(b)
+		if err != nil {
+			return nil, err
+		}
+		dialed <- rr
+		return a, nil
+	}
+	closed := make(chan struct{}, 8)
+	st, err := stub.New(plugin, stub.WithDialer(dial), stub.WithSocketPath("/nonexistent/verif"), stub.WithPluginName("gen"), stub.WithPluginIdx("42"),
+		stub.WithOnClose(func() { closed <- struct{}{} }))
+	if err != nil {
+		viol("new-failed", err.Error())
+		return
+	}
+	defer st.Stop()
+	session := func(i int) (*rig.RawRuntime, bool) {
+		startErr := make(chan error, 1)
+		go func() { startErr <- st.Start(context.Background()) }()
+		rr, ok := await(dialed, 10*time.Second)
+		if !ok {
+			viol("no-registration", fmt.Sprintf("session %d: the stub did not connect", i))
+			return nil, false
+		}
+		if _, ok := await(rr.Registered, 10*time.Second); !ok {
+			viol("no-registration", fmt.Sprintf("session %d: the stub did not register", i))
+			rr.Close()
+			return nil, false
+		}
+		ctx, cancel := context.WithTimeout(context.Background(), 10*time.Second)
+		_, cerr := rr.Plugin.Configure(ctx, &api.ConfigureRequest{Config: "c", RuntimeName: "rt", RuntimeVersion: "v1", RegistrationTimeout: 5000, RequestTimeout: 2000})
+		cancel()
+		if cerr != nil {
+			viol("configure-failed", fmt.Sprintf("session %d: %v", i, cerr))
+			rr.Close()
+			return nil, false
+		}
+		if serr, ok := await(startErr, 10*time.Second); !ok || serr != nil {
+			viol("start-failed", fmt.Sprintf("session %d: Start did not succeed (returned=%v err=%v)", i, ok, serr))
+			rr.Close()
+			return nil, false
+		}
+		return rr, true
+	}
+	rr, ok := session(0)
+	if !ok {
+		return
+	}
+	ctx, cancel := context.WithTimeout(context.Background(), 20*time.Second)
+	defer cancel()
+	for m := 0; m < accepted; m++ {
+		req := &api.SynchronizeRequest{More: true,
+			Pods:       []*api.PodSandbox{{Id: fmt.Sprintf("%s-stale-p%d", id, m)}},
+			Containers: []*api.Container{{Id: fmt.Sprintf("%s-stale-c%d", id, m)}, {Id: fmt.Sprintf("%s-stale-d%d", id, m)}}}
+		if _, err := rr.Plugin.Synchronize(ctx, req); err != nil {
+			viol("synchronize-failed", fmt.Sprintf("first session, message %d: %v", m+1, err))
+			rr.Close()
+			return
+		}
+	}
+	rr.Close() // the connection is lost; nobody calls Stop
+	if _, ok := await(closed, 10*time.Second); !ok {
+		r.res.Note("%s: the stub did not notice the lost connection", id)
+		return
+	}
+	if n := len(rec.Take()); n != 0 {
+		viol("dispatch/Synchronize", fmt.Sprintf("the Synchronize handler ran %d times for a synchronization that never completed", n))
+	}
+	rr2, ok := session(1)
+	if !ok {
+		return
+	}
+	defer rr2.Close()
+	req := &api.SynchronizeRequest{Pods: []*api.PodSandbox{{Id: id + "-new-p0"}, {Id: id + "-new-p1"}}, Containers: []*api.Container{{Id: id + "-new-c0"}}}
+	rsp, err := rr2.Plugin.Synchronize(ctx, req)
+	if err != nil {
+		viol("synchronize-failed", fmt.Sprintf("second session: %v", err))
+		return
+	}
+	calls := rec.Take()
+	if len(calls) != 1 || calls[0].Handler != "Synchronize" {
+		viol("dispatch/Synchronize", fmt.Sprintf("second session: the Synchronize handler must run exactly once; calls: %d", len(calls)))
+		return
+	}
+	var got []string
+	for _, p := range calls[0].SyncPods {
+		got = append(got, p.GetId())
+	}
+	for _, c := range calls[0].SyncCtrs {
+		got = append(got, c.GetId())
+	}
+	want := []string{id + "-new-p0", id + "-new-p1", id + "-new-c0"}
+	if strings.Join(got, ",") != strings.Join(want, ",") {
+		viol("arguments/Synchronize/after-lost-connection", fmt.Sprintf("the second session's synchronization carried %v, the handler received %v", want, got))
+	}
+	if len(rsp.GetUpdate()) != 1 || !proto.Equal(rsp.GetUpdate()[0], rec.Updates[0]) {
+		viol("result/Synchronize", fmt.Sprintf("updates returned by the Synchronize handler reached the runtime changed: %v", rsp.GetUpdate()))
+	}
+	r.res.Seen(fmt.Sprintf("resync-after-loss|0x%04x|%d", e.Mask, accepted))
 }
